@@ -68,7 +68,8 @@ def main():
                                           "failures are shrunk to a minimal replay file. Absence is not established.",
                                   "design_ref": ref},
                 "level_note": note,
-                "technique": tech,
+                "technique": tech + ("; thorough tier adds a systematic enumeration of all schedules with <= k pre-emptions over a small listed program space" if pid in getattr(budgets, "ENUM", {}) else "")
+                             + ("; thorough tier adds a coverage-guided libFuzzer campaign on the same executor and oracle" if pid in getattr(budgets, "FUZZ", {}) else ""),
             })
         else:
             na.append({"property_id": pid, "reason": "check under construction in this session (design in %s); not claimed until its executor is committed" % ref})
